@@ -1,14 +1,557 @@
-(* Log - theorems (C12). *)
+(* Log - theorems (C12).  Stdlib style.
+
+   Plan.  For ONE attempt (no retry happened) the heap of files / descriptors / bufio writers is fixed by the
+   configuration; every reachable state is `mk c k` for a small tuple k of byte sequences (file contents, buffer
+   contents, pipe).  `step_chunk` shows by computation that the model's step on such a state is `simple_step` on
+   the tuple; the properties are then proved about `simple_step` by list reasoning with the invariant
+        file ++ buffered = bytes accepted          (and: buffered fits the buffer, pipe slots are well formed)
+   and teardown flushes what is buffered. *)
 From Coq Require Import List Bool Arith NArith Lia.
 Import ListNotations.
 From BD.Log Require Import Model.
 
 Definition mkc (a b c d : bool) : cfg := {| c_stdout := a; c_stderr := b; c_output := c; c_script := d |}.
 
-(* F12a: a retry with a stdout: file - the last attempt's bytes never reach the log *)
-Lemma C12_complete_refuted_retry : exists (c : cfg) (atts : list (list (chunk nat))) (lates : list nat),
-  atts <> [] /\ ~ complete nat c (last atts []) (run nat c atts lates).
+Lemma BUFSZ_pos : 0 < BUFSZ.
+Proof. unfold BUFSZ. lia. Qed.
+Lemma PAGE_pos : 0 < PAGE.
+Proof. unfold PAGE. lia. Qed.
+Lemma HALFPIPE_eq : HALFPIPE = 8 * PAGE.
+Proof. reflexivity. Qed.
+Lemma NSLOTS_eq : NSLOTS = 16.
+Proof. reflexivity. Qed.
+
+Global Opaque BUFSZ PAGE HALFPIPE.
+
+Section Proofs.
+Variable A : Type.
+Notation bytes := (list A).
+
+(* ---------------------------------------------------------------------------------------------------- *)
+(* bufio.Write on a (file, buffer) pair                                                                   *)
+(* ---------------------------------------------------------------------------------------------------- *)
+Definition bwp (file bf p : bytes) : bytes * bytes :=
+  if length p <=? BUFSZ - length bf then (file, bf ++ p)
+  else match bf with
+       | [] => (file ++ p, [])
+       | _ => if length (skipn (BUFSZ - length bf) p) <=? BUFSZ
+              then (file ++ (bf ++ firstn (BUFSZ - length bf) p), skipn (BUFSZ - length bf) p)
+              else ((file ++ (bf ++ firstn (BUFSZ - length bf) p)) ++ skipn (BUFSZ - length bf) p, [])
+       end.
+
+(* ReadFrom, one chunk *)
+Definition rfp (file bf p : bytes) : bytes * bytes :=
+  match bf with [] => (file ++ p, []) | _ => bwp file bf p end.
+
+Lemma bwp_spec file bf p : length bf <= BUFSZ ->
+  fst (bwp file bf p) ++ snd (bwp file bf p) = file ++ bf ++ p /\ length (snd (bwp file bf p)) <= BUFSZ.
+Proof.
+  intros Hb. unfold bwp.
+  destruct (length p <=? BUFSZ - length bf) eqn:E1.
+  - apply Nat.leb_le in E1. cbn [fst snd]. split; [reflexivity|]. rewrite app_length. lia.
+  - destruct bf as [|b0 bf'].
+    + cbn [fst snd]. split; [now rewrite app_nil_r | cbn; lia].
+    + set (bf := b0 :: bf') in *. set (n := BUFSZ - length bf).
+      destruct (length (skipn n p) <=? BUFSZ) eqn:E2; cbn [fst snd].
+      * apply Nat.leb_le in E2. split; [|exact E2].
+        rewrite <- !app_assoc. now rewrite (firstn_skipn n p).
+      * split; [|cbn; lia]. rewrite app_nil_r, <- !app_assoc. now rewrite (firstn_skipn n p).
+Qed.
+
+Lemma rfp_spec file bf p : length bf <= BUFSZ ->
+  fst (rfp file bf p) ++ snd (rfp file bf p) = file ++ bf ++ p /\ length (snd (rfp file bf p)) <= BUFSZ.
+Proof.
+  intros Hb. unfold rfp. destruct bf as [|b0 bf'].
+  - cbn [fst snd]. split; [now rewrite app_nil_r | cbn; lia].
+  - now apply bwp_spec.
+Qed.
+
+Lemma rfp_empty file p : rfp file [] p = (file ++ p, []).
+Proof. reflexivity. Qed.
+
+(* ---------------------------------------------------------------------------------------------------- *)
+(* The pipe: slots stay well formed, and half a pipe always fits                                          *)
+(* ---------------------------------------------------------------------------------------------------- *)
+Fixpoint adj (l : list nat) : Prop :=
+  match l with a :: ((b :: _) as t) => PAGE < a + b /\ adj t | _ => True end.
+Definition slots_inv (l : list nat) : Prop := Forall (fun x => 1 <= x <= PAGE) l /\ adj l.
+Definition sum (l : list nat) : nat := fold_right Nat.add 0 l.
+
+Lemma adj_tl a l : adj (a :: l) -> adj l.
+Proof. destruct l as [|b l]; [trivial | now intros [_ H]]. Qed.
+
+Lemma adj_cons a l : (match l with [] => True | b :: _ => PAGE < a + b end) -> adj l -> adj (a :: l).
+Proof. destruct l as [|b l]; [trivial | now split]. Qed.
+
+Lemma adj_pages q l : adj l -> (match l with [] => True | b :: _ => 1 <= b end) -> adj (repeat PAGE q ++ l).
+Proof.
+  intros Hl Hb. induction q as [|q IH]; [exact Hl|].
+  cbn [repeat app]. apply adj_cons; [|exact IH].
+  destruct q as [|q]; cbn [repeat app].
+  - destruct l as [|b l]; [trivial | lia].
+  - pose proof PAGE_pos. lia.
+Qed.
+
+Lemma forall_pages q : Forall (fun x => 1 <= x <= PAGE) (repeat PAGE q).
+Proof. pose proof PAGE_pos. induction q; cbn; constructor; [lia | assumption]. Qed.
+
+Lemma sum_cons x l : sum (x :: l) = x + sum l.
+Proof. reflexivity. Qed.
+Lemma sum_app a b : sum (a ++ b) = sum a + sum b.
+Proof. induction a as [|x a IH]; [reflexivity|]. cbn [app]. rewrite !sum_cons, IH. lia. Qed.
+Lemma sum_pages q : sum (repeat PAGE q) = PAGE * q.
+Proof. induction q as [|q IH]; [cbn; lia|]. cbn [repeat]. rewrite sum_cons, IH. lia. Qed.
+
+(* each adjacent pair of slots holds more than a page *)
+Lemma pairs_bound : forall n l, length l <= n -> adj l -> (PAGE + 1) * (length l / 2) <= sum l.
+Proof.
+  induction n as [|n IH]; intros l Hn Ha.
+  - destruct l; [cbn; lia | cbn in Hn; lia].
+  - destruct l as [|a [|b r]]; [cbn; lia | cbn; lia |].
+    destruct Ha as [Hab Ha]. apply adj_tl in Ha.
+    assert (Hr : length r <= n) by (cbn in Hn; lia).
+    specialize (IH r Hr Ha).
+    replace (length (a :: b :: r)) with (length r + 1 * 2) by (cbn; lia).
+    rewrite Nat.div_add by lia. rewrite !sum_cons. lia.
+Qed.
+
+Definition put_result (slots : list nat) (n : nat) : list nat :=
+  let chars := n mod PAGE in
+  let '(slots1, rest) :=
+    match slots with
+    | l :: r => if (0 <? chars) && (l + chars <=? PAGE) then ((l + chars) :: r, n - chars) else (slots, n)
+    | [] => (slots, n)
+    end in
+  (if rest mod PAGE =? 0 then [] else [rest mod PAGE]) ++ repeat PAGE (rest / PAGE) ++ slots1.
+
+Lemma pipe_put_unfold slots n : 0 < n ->
+  pipe_put slots n = if length (put_result slots n) <=? NSLOTS then Some (put_result slots n) else None.
+Proof.
+  intros Hn. unfold pipe_put, put_result. destruct (n =? 0) eqn:E; [apply Nat.eqb_eq in E; lia|].
+  destruct slots as [|l r]; [reflexivity|].
+  destruct ((0 <? n mod PAGE) && (l + n mod PAGE <=? PAGE)); reflexivity.
+Qed.
+
+Lemma put_result_inv slots n : 0 < n -> slots_inv slots ->
+  slots_inv (put_result slots n) /\ sum (put_result slots n) = sum slots + n.
+Proof.
+  intros Hn [Hf Ha]. pose proof PAGE_pos as HP.
+  pose proof (Nat.div_mod n PAGE ltac:(lia)) as Hdm.
+  pose proof (Nat.mod_upper_bound n PAGE ltac:(lia)) as Hm.
+  unfold put_result.
+  destruct slots as [|l r].
+  - (* empty pipe *)
+    destruct (n mod PAGE =? 0) eqn:E0.
+    + apply Nat.eqb_eq in E0. cbn [app]. rewrite app_nil_r. split; [split|].
+      * apply forall_pages.
+      * rewrite <- (app_nil_r (repeat PAGE (n / PAGE))). now apply adj_pages.
+      * rewrite sum_pages. cbn. lia.
+    + apply Nat.eqb_neq in E0. rewrite app_nil_r. split; [split|].
+      * constructor; [lia | apply forall_pages].
+      * change ([n mod PAGE] ++ repeat PAGE (n / PAGE)) with (n mod PAGE :: repeat PAGE (n / PAGE)).
+        apply adj_cons.
+        -- destruct (n / PAGE); cbn; [trivial | lia].
+        -- rewrite <- (app_nil_r (repeat PAGE (n / PAGE))). now apply adj_pages.
+      * change ([n mod PAGE] ++ repeat PAGE (n / PAGE)) with (n mod PAGE :: repeat PAGE (n / PAGE)).
+        rewrite sum_cons, sum_pages. cbn. lia.
+  - inversion Hf as [|? ? Hl Hfr]; subst.
+    destruct ((0 <? n mod PAGE) && (l + n mod PAGE <=? PAGE)) eqn:Em.
+    + (* the sub-page remainder is merged into the last slot, the rest is whole pages *)
+      apply andb_true_iff in Em as [E1 E2]. apply Nat.ltb_lt in E1. apply Nat.leb_le in E2.
+      assert (Hrest : n - n mod PAGE = PAGE * (n / PAGE)) by lia.
+      rewrite Hrest.
+      replace (PAGE * (n / PAGE) mod PAGE) with 0
+        by (symmetry; rewrite Nat.mul_comm; apply Nat.mod_mul; lia).
+      replace (PAGE * (n / PAGE) / PAGE) with (n / PAGE)
+        by (symmetry; rewrite Nat.mul_comm; apply Nat.div_mul; lia).
+      cbn [Nat.eqb app]. split; [split|].
+      * apply Forall_app. split; [apply forall_pages|]. constructor; [lia | assumption].
+      * apply adj_pages; [|lia]. apply adj_cons; [|now apply adj_tl in Ha].
+        destruct r as [|b r]; [trivial|]. destruct Ha as [Hab _]. lia.
+      * rewrite sum_app, sum_pages, !sum_cons. lia.
+    + (* no merge *)
+      assert (Hnm : n mod PAGE = 0 \/ PAGE < l + n mod PAGE).
+      { apply andb_false_iff in Em as [E|E]; [apply Nat.ltb_ge in E; lia | apply Nat.leb_gt in E; lia]. }
+      destruct (n mod PAGE =? 0) eqn:E0.
+      * apply Nat.eqb_eq in E0. cbn [app]. split; [split|].
+        -- apply Forall_app. split; [apply forall_pages | assumption].
+        -- apply adj_pages; [assumption | lia].
+        -- rewrite sum_app, sum_pages. lia.
+      * apply Nat.eqb_neq in E0. split; [split|].
+        -- constructor; [lia|]. apply Forall_app. split; [apply forall_pages | assumption].
+        -- change ([n mod PAGE] ++ repeat PAGE (n / PAGE) ++ l :: r) with (n mod PAGE :: repeat PAGE (n / PAGE) ++ l :: r).
+           apply adj_cons; [|apply adj_pages; [assumption | lia]].
+           destruct (n / PAGE); cbn [repeat app]; lia.
+        -- change ([n mod PAGE] ++ repeat PAGE (n / PAGE) ++ l :: r) with (n mod PAGE :: repeat PAGE (n / PAGE) ++ l :: r).
+           rewrite sum_cons, sum_app, sum_pages. lia.
+Qed.
+
+(* a write that leaves the pipe at most half full never blocks *)
+Lemma pipe_put_fits slots n : slots_inv slots -> sum slots + n <= HALFPIPE ->
+  exists ps, pipe_put slots n = Some ps /\ slots_inv ps /\ sum ps = sum slots + n.
+Proof.
+  intros Hi Hs. destruct (Nat.eq_dec n 0) as [->|Hn].
+  - exists slots. cbn. repeat split; try apply Hi. lia.
+  - assert (0 < n) as Hn' by lia.
+    destruct (put_result_inv slots n Hn' Hi) as [Hinv Hsum].
+    rewrite (pipe_put_unfold slots n Hn').
+    destruct (length (put_result slots n) <=? NSLOTS) eqn:E.
+    + eauto.
+    + exfalso. apply Nat.leb_gt in E. rewrite NSLOTS_eq in E.
+      pose proof (pairs_bound _ _ (Nat.le_refl _) (proj2 Hinv)) as Hb.
+      assert (8 <= length (put_result slots n) / 2).
+      { change 8 with (16 / 2). apply Nat.div_le_mono; lia. }
+      rewrite HALFPIPE_eq in Hs. nia.
+Qed.
+
+(* ---------------------------------------------------------------------------------------------------- *)
+(* One attempt as a tuple of byte sequences                                                               *)
+(* ---------------------------------------------------------------------------------------------------- *)
+Record comps := {
+  k_dlog : bytes; k_bl : bytes;        (* log file, log buffer *)
+  k_dout : bytes; k_bo : bytes;        (* stdout: file and buffer *)
+  k_derr : bytes;                      (* stderr: file (its buffer stays empty) *)
+  k_pipe : bytes; k_ps : list nat; k_blocked : bool; k_outvar : option bytes }.
+
+Definition k0 : comps :=
+  {| k_dlog := []; k_bl := []; k_dout := []; k_bo := []; k_derr := []; k_pipe := []; k_ps := []; k_blocked := false; k_outvar := None |}.
+
+Definition ebuf (c : cfg) : nat := if c_stdout c then 2 else 1.     (* id of the stderr writer / descriptor *)
+
+Definition mk (c : cfg) (k : comps) : st A :=
+  let s0 := exec_start A c (setup A c 0 (init (A := A))) in
+  {| disk := [(p_log 0, k_dlog k)] ++ (if c_stdout c then [(P_STDOUT, k_dout k)] else [])
+                                   ++ (if c_stderr c then [(P_STDERR, k_derr k)] else []);
+     fds := fds A s0; nfd := nfd A s0;
+     bufs := [(0, {| bw_buf := k_bl k; bw_fd := 0; bw_err := false |})]
+             ++ (if c_stdout c then [(1, {| bw_buf := k_bo k; bw_fd := 1; bw_err := false |})] else [])
+             ++ (if c_stderr c then [(ebuf c, {| bw_buf := []; bw_fd := ebuf c; bw_err := false |})] else []);
+     nbuf := nbuf A s0; nd := nd A s0; w_out := w_out A s0; w_err := w_err A s0; shared := shared A s0;
+     pipe := k_pipe k; pslots := k_ps k; blocked := k_blocked k; brk_o := false; brk_e := false;
+     logpath := logpath A s0; outvar := k_outvar k |}.
+
+Definition multi (c : cfg) : bool := c_output c || c_stdout c.
+
+(* the bytes of a chunk that go towards the log *)
+Definition to_log (c : cfg) (x : stream) : bool := match x with Out => true | Err => negb (c_stderr c) end.
+
+Definition simple_step (c : cfg) (k : comps) (x : stream) (p : bytes) : comps :=
+  if k_blocked k then k
+  else if to_log c x then
+    if multi c then
+      let lg := bwp (k_dlog k) (k_bl k) p in
+      let ou := if c_stdout c then bwp (k_dout k) (k_bo k) p else (k_dout k, k_bo k) in
+      if c_output c then
+        match pipe_put (k_ps k) (length p) with
+        | Some ps => {| k_dlog := fst lg; k_bl := snd lg; k_dout := fst ou; k_bo := snd ou; k_derr := k_derr k;
+                        k_pipe := k_pipe k ++ p; k_ps := ps; k_blocked := false; k_outvar := k_outvar k |}
+        | None => {| k_dlog := fst lg; k_bl := snd lg; k_dout := fst ou; k_bo := snd ou; k_derr := k_derr k;
+                     k_pipe := k_pipe k; k_ps := k_ps k; k_blocked := true; k_outvar := k_outvar k |}
+        end
+      else {| k_dlog := fst lg; k_bl := snd lg; k_dout := fst ou; k_bo := snd ou; k_derr := k_derr k;
+              k_pipe := k_pipe k; k_ps := k_ps k; k_blocked := false; k_outvar := k_outvar k |}
+    else
+      let lg := rfp (k_dlog k) (k_bl k) p in
+      {| k_dlog := fst lg; k_bl := snd lg; k_dout := k_dout k; k_bo := k_bo k; k_derr := k_derr k;
+         k_pipe := k_pipe k; k_ps := k_ps k; k_blocked := false; k_outvar := k_outvar k |}
+  else {| k_dlog := k_dlog k; k_bl := k_bl k; k_dout := k_dout k; k_bo := k_bo k; k_derr := k_derr k ++ p;
+          k_pipe := k_pipe k; k_ps := k_ps k; k_blocked := false; k_outvar := k_outvar k |}.
+
+Lemma mk_start c : exec_start A c (setup A c 0 (init (A := A))) = mk c k0.
+Proof. destruct c as [[] [] [] sc]; reflexivity. Qed.
+
+Ltac split_ifs :=
+  repeat match goal with
+  | |- context [if ?b then _ else _] =>
+      lazymatch b with
+      | true => fail | false => fail
+      | _ => let E := fresh "E" in destruct b eqn:E
+      end
+  | |- context [match ?l with [] => _ | _ :: _ => _ end] =>
+      lazymatch l with
+      | [] => fail | _ :: _ => fail
+      | _ => let E := fresh "E" in destruct l eqn:E
+      end
+  | |- context [match ?o with Some _ => _ | None => _ end] =>
+      lazymatch o with
+      | Some _ => fail | None => fail
+      | _ => let E := fresh "E" in destruct o eqn:E
+      end
+  end.
+
+Lemma step_chunk c k x p : step A c (mk c k) (AChunk A x p) = mk c (simple_step c k x p).
+Proof.
+  destruct c as [[] [] [] sc]; destruct x.
+  all: unfold step, simple_step, mk; cbn [blocked k_blocked].
+  all: destruct (k_blocked k) eqn:Eb; [destruct k; cbn [k_blocked] in Eb; subst; reflexivity|].
+  all: destruct k as [dlog bl dout bo derr pp ps blk ov]; cbn [k_blocked] in Eb; subst blk.
+  all: cbv -[BUFSZ PAGE Nat.leb Nat.sub firstn skipn length pipe_put].
+  all: split_ifs; reflexivity.
+Qed.
+
+(* ---------------------------------------------------------------------------------------------------- *)
+(* The attempt as a fold of simple_step                                                                   *)
+(* ---------------------------------------------------------------------------------------------------- *)
+Definition fold_chunks (c : cfg) (k : comps) (cs : list (chunk A)) : comps :=
+  fold_left (fun k ch => simple_step c k (fst ch) (snd ch)) cs k.
+
+Lemma exec_chunks c cs : forall k,
+  exec A c (mk c k) (map (fun ch => AChunk A (fst ch) (snd ch)) cs) = mk c (fold_chunks c k cs).
+Proof.
+  induction cs as [|ch cs IH]; intros k; [reflexivity|].
+  unfold exec, fold_chunks in *. cbn [map fold_left]. rewrite step_chunk. apply IH.
+Qed.
+
+Definition end_k (c : cfg) (k : comps) : comps :=
+  if c_output c && negb (k_blocked k)
+  then {| k_dlog := k_dlog k; k_bl := k_bl k; k_dout := k_dout k; k_bo := k_bo k; k_derr := k_derr k;
+          k_pipe := k_pipe k; k_ps := k_ps k; k_blocked := k_blocked k; k_outvar := Some (k_pipe k) |}
+  else k.
+
+Lemma exec_end_mk c k : exec_end A c (mk c k) = mk c (end_k c k).
+Proof.
+  destruct c as [[] [] [] sc]; destruct k as [dlog bl dout bo derr pp ps blk ov]; destruct blk; reflexivity.
+Qed.
+
+Lemma start_mk c : step A c (step A c (init (A := A)) (ASetup A 0)) (AStart A) = mk c k0.
+Proof. destruct c as [[] [] [] sc]; reflexivity. Qed.
+
+Lemma run_single c cs :
+  run A c [cs] [] = step A c (step A c (mk c (fold_chunks c k0 cs)) (AEnd A)) (ATeardown A).
+Proof.
+  unfold run, program, body, insert_at. cbn [hd tl firstn skipn app].
+  unfold exec. cbn [fold_left]. rewrite start_mk.
+  rewrite fold_left_app. fold (exec A c (mk c k0) (map (fun ch => AChunk A (fst ch) (snd ch)) cs)).
+  rewrite exec_chunks. reflexivity.
+Qed.
+
+(* teardown of a running single attempt: what is buffered reaches the files *)
+Lemma teardown_obs c k : k_blocked k = false ->
+  let s := teardown A (mk c k) in
+  blocked A s = false /\ logpath A s = p_log 0 /\ dsk A s (p_log 0) = k_dlog k ++ k_bl k /\
+  (c_stdout c = true -> dsk A s P_STDOUT = k_dout k ++ k_bo k) /\
+  (c_stderr c = true -> dsk A s P_STDERR = k_derr k) /\ outvar A s = k_outvar k.
+Proof.
+  intros Hb. destruct k as [dlog bl dout bo derr pp ps blk ov]. cbn [k_blocked] in Hb. subst blk.
+  destruct c as [[] [] [] sc]; destruct bl, bo; cbv -[app];
+    rewrite ?app_nil_r; repeat split; intros; try reflexivity; try discriminate.
+Qed.
+
+(* ---------------------------------------------------------------------------------------------------- *)
+(* Invariant: file ++ buffered = bytes accepted                                                           *)
+(* ---------------------------------------------------------------------------------------------------- *)
+Record kinv (c : cfg) (k : comps) (L E : bytes) : Prop := {
+  ki_blk : k_blocked k = false;
+  ki_log : k_dlog k ++ k_bl k = L;
+  ki_lbuf : length (k_bl k) <= BUFSZ;
+  ki_out : c_stdout c = true -> k_dout k ++ k_bo k = L /\ length (k_bo k) <= BUFSZ;
+  ki_err : c_stderr c = true -> k_derr k = E;
+  ki_pipe : c_output c = true -> k_pipe k = L /\ slots_inv (k_ps k) /\ sum (k_ps k) = length L;
+  ki_ov : k_outvar k = None }.
+
+Lemma kinv0 c : kinv c k0 [] [].
+Proof.
+  constructor; cbn; try reflexivity; try lia; intros _; repeat split; try reflexivity; try lia; constructor.
+Qed.
+
+Definition lpart (c : cfg) (x : stream) (p : bytes) : bytes := if to_log c x then p else [].
+Definition epart (x : stream) (p : bytes) : bytes := match x with Err => p | Out => [] end.
+
+Lemma simple_step_inv c k L E x p :
+  kinv c k L E -> (c_output c = true -> length (L ++ lpart c x p) <= HALFPIPE) ->
+  kinv c (simple_step c k x p) (L ++ lpart c x p) (E ++ epart x p).
+Proof.
+  intros [Hblk Hlog Hlb Hout Herr Hpipe Hov] Hfit.
+  unfold simple_step, lpart in *. rewrite Hblk.
+  destruct (to_log c x) eqn:Etl.
+  - (* towards the log *)
+    assert (HE : c_stderr c = true -> E ++ epart x p = E).
+    { intros Hs. destruct x; cbn; [apply app_nil_r|]. cbn in Etl. rewrite Hs in Etl. discriminate. }
+    destruct (multi c) eqn:Em.
+    + pose proof (bwp_spec (k_dlog k) (k_bl k) p Hlb) as [Hl1 Hl2].
+      assert (Ho : c_stdout c = true ->
+                   fst (if c_stdout c then bwp (k_dout k) (k_bo k) p else (k_dout k, k_bo k)) ++
+                   snd (if c_stdout c then bwp (k_dout k) (k_bo k) p else (k_dout k, k_bo k)) = L ++ p /\
+                   length (snd (if c_stdout c then bwp (k_dout k) (k_bo k) p else (k_dout k, k_bo k))) <= BUFSZ).
+      { intros Hs. rewrite Hs. destruct (Hout Hs) as [Ho1 Ho2].
+        pose proof (bwp_spec (k_dout k) (k_bo k) p Ho2) as [H1 H2]. split; [|exact H2].
+        rewrite H1, <- Ho1. now rewrite app_assoc. }
+      destruct (c_output c) eqn:Eo.
+      * destruct (Hpipe eq_refl) as (Hp1 & Hp2 & Hp3).
+        specialize (Hfit eq_refl). rewrite app_length in Hfit.
+        destruct (pipe_put_fits (k_ps k) (length p) Hp2 ltac:(lia)) as (ps & Hput & Hpi & Hps).
+        rewrite Hput. constructor; cbn [k_blocked k_dlog k_bl k_dout k_bo k_derr k_pipe k_ps k_outvar]; try assumption; try reflexivity.
+        -- rewrite Hl1, <- Hlog. now rewrite app_assoc.
+        -- intros Hs. rewrite (HE Hs). now apply Herr.
+        -- intros _. repeat split; [now rewrite Hp1 | exact Hpi | rewrite Hps, Hp3, app_length; lia].
+      * constructor; cbn [k_blocked k_dlog k_bl k_dout k_bo k_derr k_pipe k_ps k_outvar]; try assumption; try reflexivity.
+        -- rewrite Hl1, <- Hlog. now rewrite app_assoc.
+        -- intros Hs. rewrite (HE Hs). now apply Herr.
+        -- discriminate.
+    + (* a lone bufio.Writer: ReadFrom *)
+      unfold multi in Em. apply orb_false_iff in Em as [Eo Es].
+      pose proof (rfp_spec (k_dlog k) (k_bl k) p Hlb) as [Hl1 Hl2].
+      constructor; cbn [k_blocked k_dlog k_bl k_dout k_bo k_derr k_pipe k_ps k_outvar]; try assumption; try reflexivity.
+      * rewrite Hl1, <- Hlog. now rewrite app_assoc.
+      * intros Hs. rewrite Hs in Es. discriminate.
+      * intros Hs. rewrite (HE Hs). now apply Herr.
+      * intros Ho. rewrite Ho in Eo. discriminate.
+  - (* stderr with its own file *)
+    destruct x; [discriminate|]. cbn in Etl. apply negb_false_iff in Etl.
+    rewrite app_nil_r. cbn [epart].
+    constructor; cbn [k_blocked k_dlog k_bl k_dout k_bo k_derr k_pipe k_ps k_outvar]; try assumption; try reflexivity.
+    intros _. now rewrite (Herr Etl).
+Qed.
+
+Lemma log_of_cons c ch cs : log_of A c (ch :: cs) = lpart c (fst ch) (snd ch) ++ log_of A c cs.
+Proof.
+  unfold log_of, lpart, to_log. cbn [flat_map]. destruct (fst ch); [reflexivity|]. now destruct (c_stderr c).
+Qed.
+Lemma err_of_cons ch cs : err_of A (ch :: cs) = epart (fst ch) (snd ch) ++ err_of A cs.
+Proof. unfold err_of, epart. cbn [flat_map]. now destruct (fst ch). Qed.
+
+Lemma fold_inv c cs : forall k L E,
+  kinv c k L E -> (c_output c = true -> length (L ++ log_of A c cs) <= HALFPIPE) ->
+  kinv c (fold_chunks c k cs) (L ++ log_of A c cs) (E ++ err_of A cs).
+Proof.
+  induction cs as [|ch cs IH]; intros k L E Hk Hfit.
+  - cbn. now rewrite !app_nil_r.
+  - unfold fold_chunks. cbn [fold_left]. fold (fold_chunks c (simple_step c k (fst ch) (snd ch)) cs).
+    rewrite log_of_cons, err_of_cons, !app_assoc.
+    apply IH.
+    + apply simple_step_inv; [exact Hk|]. intros Ho. specialize (Hfit Ho).
+      rewrite log_of_cons, app_assoc, app_length in Hfit. lia.
+    + intros Ho. specialize (Hfit Ho). now rewrite log_of_cons, app_assoc in Hfit.
+Qed.
+
+(* ---------------------------------------------------------------------------------------------------- *)
+(* C12, one attempt                                                                                       *)
+(* ---------------------------------------------------------------------------------------------------- *)
+Theorem complete_single : forall c cs,
+  (c_output c = false \/ length (log_of A c cs) <= HALFPIPE) -> complete A c cs (run A c [cs] []).
+Proof.
+  intros c cs Hpre. rewrite run_single.
+  assert (Hk : kinv c (fold_chunks c k0 cs) (log_of A c cs) (err_of A cs)).
+  { apply (fold_inv c cs k0 [] [] (kinv0 c)). intros Ho. destruct Hpre as [H|H]; [congruence | exact H]. }
+  destruct Hk as [Hblk Hlog Hlb Hout Herr Hpipe Hov].
+  assert (Hs1 : step A c (mk c (fold_chunks c k0 cs)) (AEnd A) = mk c (end_k c (fold_chunks c k0 cs))).
+  { unfold step. cbn [blocked mk]. rewrite Hblk. apply exec_end_mk. }
+  rewrite Hs1.
+  assert (Hb' : k_blocked (end_k c (fold_chunks c k0 cs)) = false).
+  { unfold end_k. now destruct (c_output c && negb (k_blocked (fold_chunks c k0 cs))). }
+  unfold step at 1. cbn [blocked mk]. rewrite Hb'.
+  destruct (teardown_obs c _ Hb') as (T1 & T2 & T3 & T4 & T5 & _).
+  assert (Hsame : forall f : comps -> bytes,
+            (forall k v, f {| k_dlog := k_dlog k; k_bl := k_bl k; k_dout := k_dout k; k_bo := k_bo k; k_derr := k_derr k;
+                              k_pipe := k_pipe k; k_ps := k_ps k; k_blocked := k_blocked k; k_outvar := v |} = f k) ->
+            f (end_k c (fold_chunks c k0 cs)) = f (fold_chunks c k0 cs)).
+  { intros f Hf. unfold end_k. destruct (c_output c && negb (k_blocked (fold_chunks c k0 cs))); [apply Hf | reflexivity]. }
+  unfold complete. rewrite T1, T2, T3. split; [reflexivity|]. split; [|split].
+  - rewrite (Hsame k_dlog), (Hsame k_bl) by reflexivity. exact Hlog.
+  - intros Hs. exists []. rewrite (T4 Hs). rewrite (Hsame k_dout), (Hsame k_bo) by reflexivity. now destruct (Hout Hs).
+  - intros Hs. exists []. rewrite (T5 Hs). rewrite (Hsame k_derr) by reflexivity. now apply Herr.
+Qed.
+
+(* what the `output:` variable receives (before TrimSpace): everything that went towards the log - stdout, and
+   stderr too unless a `stderr:` file is configured *)
+Theorem capture_single : forall c cs,
+  c_output c = true -> length (log_of A c cs) <= HALFPIPE ->
+  outvar A (run A c [cs] []) = Some (log_of A c cs).
+Proof.
+  intros c cs Ho Hfit. rewrite run_single.
+  assert (Hk : kinv c (fold_chunks c k0 cs) (log_of A c cs) (err_of A cs)).
+  { apply (fold_inv c cs k0 [] [] (kinv0 c)). now intros _. }
+  destruct Hk as [Hblk Hlog Hlb Hout Herr Hpipe Hov].
+  assert (Hs1 : step A c (mk c (fold_chunks c k0 cs)) (AEnd A) = mk c (end_k c (fold_chunks c k0 cs))).
+  { unfold step. cbn [blocked mk]. rewrite Hblk. apply exec_end_mk. }
+  rewrite Hs1.
+  assert (Hb' : k_blocked (end_k c (fold_chunks c k0 cs)) = false).
+  { unfold end_k. now destruct (c_output c && negb (k_blocked (fold_chunks c k0 cs))). }
+  unfold step at 1. cbn [blocked mk]. rewrite Hb'.
+  destruct (teardown_obs c _ Hb') as (_ & _ & _ & _ & _ & T6).
+  rewrite T6. unfold end_k. rewrite Ho, Hblk. cbn [andb negb k_outvar]. f_equal. now destruct (Hpipe Ho).
+Qed.
+
+(* the log stream is an order-preserving merge of the two streams (stderr only when it is not redirected) *)
+Lemma merge_app_l x y z a : is_merge A x y z -> is_merge A (a ++ x) y (a ++ z).
+Proof. intros H. induction a as [|e a IH]; [exact H | now constructor]. Qed.
+Lemma merge_app_r x y z a : is_merge A x y z -> is_merge A x (a ++ y) (a ++ z).
+Proof. intros H. induction a as [|e a IH]; [exact H | now constructor]. Qed.
+
+Theorem log_of_merge : forall c cs,
+  is_merge A (out_of A cs) (if c_stderr c then [] else err_of A cs) (log_of A c cs).
+Proof.
+  intros c cs. induction cs as [|[x p] cs IH]; [destruct (c_stderr c); constructor|].
+  unfold out_of, err_of, log_of in *. cbn [flat_map fst snd]. destruct x.
+  - rewrite app_nil_l. destruct (c_stderr c); now apply merge_app_l.
+  - rewrite app_nil_l. destruct (c_stderr c); [exact IH | now apply merge_app_r].
+Qed.
+
+End Proofs.
+
+(* ---------------------------------------------------------------------------------------------------- *)
+(* What the faithful model refutes                                                                        *)
+(* ---------------------------------------------------------------------------------------------------- *)
+(* Full statement (false):
+     forall c atts lates, atts <> [] -> complete c (last atts []) (run c atts lates)
+   i.e. for every configuration, every number of attempts, every chunking and every size. *)
+
+(* F12a: a retry with a `stdout:` file (MultiWriter wiring): Node.done stays true after the first teardown,
+   the second attempt's writers are never flushed - its log is empty *)
+Lemma complete_refuted_retry_stdout : exists (c : cfg) (atts : list (list (chunk nat))) (lates : list nat),
+  atts <> [] /\ Forall (fun d => d = 0) lates /\ ~ complete nat c (last atts []) (run nat c atts lates).
 Proof.
   exists (mkc true false false false), [[(Out, [1])]; [(Out, [2])]], [0].
-  split; [discriminate|]. intros (_ & H & _). vm_compute in H. discriminate.
+  split; [discriminate|]. split; [repeat constructor|]. intros (_ & H & _). vm_compute in H. discriminate.
 Qed.
+
+(* F12a with an `output:` variable instead of a stdout: file *)
+Lemma complete_refuted_retry_output : exists (c : cfg) (atts : list (list (chunk nat))) (lates : list nat),
+  atts <> [] /\ Forall (fun d => d = 0) lates /\ ~ complete nat c (last atts []) (run nat c atts lates).
+Proof.
+  exists (mkc false false true false), [[(Out, [1])]; [(Out, [2])]], [0].
+  split; [discriminate|]. split; [repeat constructor|]. intros (_ & H & _). vm_compute in H. discriminate.
+Qed.
+
+(* F12b: plain log-only wiring, but the stale worker of the failed attempt reaches its teardown after the next
+   attempt has been set up: it closes the new attempt's file, whose log stays empty *)
+Lemma complete_refuted_stale_teardown : exists (c : cfg) (atts : list (list (chunk nat))) (lates : list nat),
+  atts <> [] /\ c_stdout c = false /\ c_output c = false /\ ~ complete nat c (last atts []) (run nat c atts lates).
+Proof.
+  exists (mkc false false false false), [[(Out, [1])]; [(Out, [2])]], [2].
+  split; [discriminate|]. split; [reflexivity|]. split; [reflexivity|]. intros (_ & H & _). vm_compute in H. discriminate.
+Qed.
+
+(* F12c: one attempt, `output:` set, 65537 bytes in page-aligned chunks: the copy blocks for good *)
+Lemma complete_refuted_pipe : exists (c : cfg) (cs : list (chunk nat)),
+  c_output c = true /\ blocked nat (run nat c [cs] []) = true.
+Proof.
+  exists (mkc false false true false),
+    [(Out, repeat 0 (N.to_nat 32768)); (Out, repeat 0 (N.to_nat 32768)); (Out, [0])].
+  split; [reflexivity | vm_compute; reflexivity].
+Qed.
+
+(* ... and the half-pipe bound of the partial theorem is nearly sharp: 17 chunks of 2049 bytes (34833 bytes) block *)
+Lemma complete_refuted_pipe_chunking : exists (c : cfg) (cs : list (chunk nat)),
+  c_output c = true /\ length (log_of nat c cs) = 34833 /\ blocked nat (run nat c [cs] []) = true.
+Proof.
+  exists (mkc false false true false), (repeat (Out, repeat 0 2049) 17).
+  split; [reflexivity|]. split; vm_compute; reflexivity.
+Qed.
+
+(* F11d (C11): the captured value contains the step's stderr *)
+Lemma capture_stdout_refuted : exists (c : cfg) (cs : list (chunk nat)),
+  c_output c = true /\ outvar nat (run nat c [cs] []) <> Some (out_of nat cs).
+Proof.
+  exists (mkc false false true false), [(Out, [1]); (Err, [2])].
+  split; [reflexivity | vm_compute; discriminate].
+Qed.
+
+(* satisfiability of the premises of complete_single / an instance *)
+Example complete_single_example :
+  let c := mkc true true true false in
+  let cs := [(Out, repeat 7 5000); (Err, [1; 2; 3]); (Out, repeat 8 3000)] in
+  (c_output c = false \/ length (log_of nat c cs) <= HALFPIPE) /\
+  dsk nat (run nat c [cs] []) (logpath nat (run nat c [cs] [])) = repeat 7 5000 ++ repeat 8 3000 /\
+  dsk nat (run nat c [cs] []) P_STDERR = [1; 2; 3].
+Proof. vm_compute. repeat split; try reflexivity. right. repeat constructor. Qed.
